@@ -44,10 +44,11 @@ type c07Fld struct {
 }
 
 type c07Pkt struct {
-	b    []byte
-	typ  byte
-	name string
-	flds []c07Fld // inner length/count fields (the frame length at offset 0 is implicit)
+	b     []byte
+	typ   byte
+	name  string
+	flds  []c07Fld // inner length/count fields (the frame length at offset 0 is implicit)
+	words []c07Fld // other 32-bit words whose value selects a decoding path (attribute flags, permission/type word)
 }
 
 type c07B struct {
@@ -71,6 +72,10 @@ func (b *c07B) u64(v uint64) *c07B {
 }
 func (b *c07B) length(field string, v uint32) *c07B {
 	b.p.flds = append(b.p.flds, c07Fld{off: len(b.p.b), val: v, name: field})
+	return b.u32(v)
+}
+func (b *c07B) word(field string, v uint32) *c07B {
+	b.p.words = append(b.p.words, c07Fld{off: len(b.p.b), val: v, name: field})
 	return b.u32(v)
 }
 func (b *c07B) str(field, s string) *c07B {
